@@ -14,9 +14,9 @@ import (
 // C04 — sparse fieldsets and relationship data are honoured exactly.
 
 var (
-	c04T = TypeD{Name: "t", Attrs: []AttrD{{"a1", Kind{j.AttrTypeString, false}}, {"a2", Kind{j.AttrTypeInt, true}}},
-		Rels: []RelD{{"one", true, "u", ""}, {"many", false, "u", ""}}}
-	c04U = TypeD{Name: "u", Attrs: []AttrD{{"b", Kind{j.AttrTypeBool, false}}, {"a1", Kind{j.AttrTypeString, false}}},
+	c04T = TypeD{Name: "t", Attrs: []AttrD{{"a", Kind{j.AttrTypeString, false}}, {"ab", Kind{j.AttrTypeInt, true}}},
+		Rels: []RelD{{"one", true, "u", ""}, {"ones", false, "u", ""}}}
+	c04U = TypeD{Name: "u", Attrs: []AttrD{{"b", Kind{j.AttrTypeBool, false}}, {"a", Kind{j.AttrTypeString, false}}},
 		Rels: []RelD{{"r", true, "t", ""}, {"one", false, "t", ""}}}
 )
 
@@ -68,18 +68,18 @@ func c04Body(x *mc.Exec) {
 	selU := x.Choose(3, "selection u")
 	rdU := x.Choose(2, "reldata u")
 
-	schema := BuildSchema([]TypeD{c04T, c04U}, []bool{soft, soft})
-	tFields := []string{"a1", "a2", "many", "one"}
+	_ = BuildSchema([]TypeD{c04T, c04U}, []bool{soft, soft})
+	tFields := []string{"a", "ab", "one", "ones"}
 	fields := map[string][]string{}
 	switch {
 	case selT < 16:
 		fields["t"] = subsetOf(tFields, selT)
 	case selT == 16:
-		fields["t"] = []string{"a1", "zzz", "one"}
+		fields["t"] = []string{"a", "zzz", "one"}
 	case selT == 17:
-		fields["t"] = []string{"id", "a1"}
+		fields["t"] = []string{"id", "a"}
 	case selT == 18:
-		fields["t"] = []string{"a1", "one", "a1", "one"}
+		fields["t"] = []string{"a", "one", "a", "one"}
 	case selT == 19:
 		// no entry for t
 	case selT == 20:
@@ -88,7 +88,7 @@ func c04Body(x *mc.Exec) {
 	if fields != nil {
 		switch selU {
 		case 0:
-			fields["u"] = []string{"a1", "b", "one", "r"}
+			fields["u"] = []string{"a", "b", "one", "r"}
 		case 1:
 			fields["u"] = []string{}
 		}
@@ -96,12 +96,12 @@ func c04Body(x *mc.Exec) {
 	relData := map[string][]string{}
 	switch {
 	case rdT < 4:
-		relData["t"] = subsetOf([]string{"many", "one"}, rdT)
+		relData["t"] = subsetOf([]string{"one", "ones"}, rdT)
 	case rdT == 4:
 		relData["t"] = []string{"zzz", "one"}
 	case rdT == 5:
 		// entry for the other type only, naming t's relationships
-		relData["u"] = []string{"one", "many"}
+		relData["u"] = []string{"one", "ones"}
 	}
 	if rdU == 1 {
 		relData["u"] = append(relData["u"], "r")
@@ -115,11 +115,11 @@ func c04Body(x *mc.Exec) {
 		}
 		return r
 	}
-	t1 := mk(c04T, "1", map[string]any{"a1": "x", "a2": Ptr(int(5)), "one": "u1", "many": []string{"u2", "u1"}})
-	t2 := mk(c04T, "2", map[string]any{"a1": "", "one": "", "many": []string{}})
+	t1 := mk(c04T, "1", map[string]any{"a": "x", "ab": Ptr(int(5)), "one": "u1", "ones": []string{"u2", "u1"}})
+	t2 := mk(c04T, "2", map[string]any{"a": "", "one": "", "ones": []string{}})
 	u1 := mk(c04U, "u1", map[string]any{"b": true, "r": "1", "one": []string{"2"}})
 	related := map[string]map[string][]string{
-		"t/1": {"one": {"u1"}, "many": {"u1", "u2"}}, "t/2": {"one": {}, "many": {}},
+		"t/1": {"one": {"u1"}, "ones": {"u1", "u2"}}, "t/2": {"one": {}, "ones": {}},
 		"u/u1": {"r": {"1"}, "one": {"2"}},
 	}
 
@@ -281,7 +281,7 @@ func c04Parsed(x *mc.Exec) {
 	mask := 1 + x.Choose(15, "subset")
 	order := x.Choose(2, "order")
 	schema := BuildSchema([]TypeD{c04T, c04U}, []bool{soft, soft})
-	sel := subsetOf([]string{"a1", "a2", "many", "one"}, mask)
+	sel := subsetOf([]string{"a", "ab", "one", "ones"}, mask)
 	if order == 1 {
 		for i, k := 0, len(sel)-1; i < k; i, k = i+1, k-1 {
 			sel[i], sel[k] = sel[k], sel[i]
